@@ -180,6 +180,7 @@ func (idx *timeSeriesIndex) ExpireTimeSeriesIDs(memTimeSeriesIDs *roaring.Bitmap
 // GC clears expired time series ids.
 func (idx *timeSeriesIndex) GC(gcTimestamp int64) {
 	activeIDs := roaring.New()
+	removed := 0
 	// gc memory time series index
 	idx.hashes.Range(func(key, value any) bool {
 		memTimeSeriesID := value.(uint32)
@@ -187,6 +188,7 @@ func (idx *timeSeriesIndex) GC(gcTimestamp int64) {
 		if ok && expiredTimestamp.(int64) < gcTimestamp {
 			idx.hashes.Delete(key)                 // delete memory index
 			idx.expiredIDs.Delete(memTimeSeriesID) // delete expired id
+			removed++
 		} else {
 			activeIDs.Add(memTimeSeriesID)
 		}
@@ -200,8 +202,9 @@ func (idx *timeSeriesIndex) GC(gcTimestamp int64) {
 	// gc time series index
 	if active == 0 && !idx.ids.IsEmpty() {
 		idx.ids = imap.NewIntMap[uint32]()
-	} else if float64(active) <= 0.5*float64(idx.ids.Size()) {
-		// TODO: add config?
+	} else if removed > 0 {
+		// the link(global series id => memory series id) of a removed memory series id must go too:
+		// a series which is written again gets a new memory series id, a stale link would hide its data.
 		newIds := imap.NewIntMap[uint32]()
 		_ = idx.ids.WalkEntry(func(key, value uint32) error {
 			if activeIDs.Contains(value) {
